@@ -32,3 +32,7 @@ impl CancelIo for CancelIoImpl {
         None
     }
 }
+
+#[cfg(kani)]
+#[path = "/verif/harness/may/io_sys_unix_cancel.rs"]
+mod verif_kani;
